@@ -162,6 +162,11 @@ EXPORT errno_t _ctime_s_chk(char *dest, rsize_t dmax, const time_t *timer,
 #endif
             return -1;
         }
+#ifdef SAFECLIB_STR_NULL_SLACK
+        /* the result is already in dest: null the slack behind it */
+        len = strnlen(dest, dmax);
+        memset(dest + len, 0, dmax - len);
+#endif
     } else {
         char tmp[120];
         buf = ctime_r(timer, (char *)&tmp);
